@@ -30,7 +30,8 @@ prop("C13",
      rule="stream cases: 1-3 publishers x 1-3 topics x 1-3 subscribers (v3.1.1/v5, Receive Maximum 1/2/unlimited) through clients.Manager over net.Pipe, "
           "20-80 (thorough 50-500) sequence-numbered messages per publisher at QoS 0/1/2 or mixed; the subscriber-side arrival order per "
           "(subscriber, publisher, topic, qos) must be 1,2,3,... and complete. Every 8th case replays the two-worker witness of refute/C13.v on the "
-          "provider (memlockfree or mem) with a stub that holds message 1 until message 2 arrives. non-trivial = more than one message; distinct by case JSON.",
+          "provider (memlockfree or mem) with a stub that holds message 1 until message 2 arrives. The witness of the open finding C13-close-handoff-inversion ('closerace': a durable subscriber with Receive Maximum 1 and queued QoS 1 messages, its connection ends, "
+          "the harness holds PacketsStore open while further messages are routed, the next connection must receive 1..N+K in order) is replayed on every run and is NOT generated. non-trivial = more than one message; distinct by case JSON.",
      level_text="Theorem (coq/props/C13.v): for the number of routing workers found in topics/memlockfree/topics.go and topics/mem/topics.go by the translator "
                 "(coq/gen/Extracted.v, regenerated on every run), under EVERY schedule of the routing workers each subscriber is handed exactly the messages it must get, "
                 "in publication order (prefix at any time, equality at quiescence); refute/C13.v shows the statement false for two workers. Tied to the code by the translator "
@@ -100,7 +101,9 @@ prop("C02", harness="C02",
      coq=_WRITER_COQ + ["proofs/NoLoss.v", "props/C02.v", "props/C03.v"],
      n={"quick": 500, "thorough": 10000, "search": 2000},
      shrink_fields=["ops"], shrink_min=1,
-     rule=_WRITER_RULE + " For C02 every history contains close/reconnect operations.",
+     rule=_WRITER_RULE + " For C02 every history contains close/reconnect operations; every 6th has 'flap' operations (reconnect over a pipe of 16 bytes capacity, drop while the broker's writer is blocked mid-retransmission); "
+          "a quarter of the reconnects are 'late' operations: the persistence backend is wrapped by a gate (harness/gatepersist.go) that holds the routing worker inside PacketStoreQoS12 for a message routed to the OFFLINE session while the client reconnects - "
+          "to the model: a message handed over while offline, then a reconnect (it must be delivered in that connection).",
      level_text="Theorems (coq/props/C02.v, with the C03 invariant): for every Receive Maximum >= 1 a connected client that acknowledged everything is sent the next pending QoS 1/2 message by the "
                 "next writer round (no stall); everything transmitted and unacknowledged at connection end is queued with its identifier and DUP=1 for unconditional retransmission at reconnect "
                 "and is served first; queued unexpired messages survive in persistence. C02_no_loss (proved, over EVERY guarded history of publish / writer round / acknowledgement / disconnect / reconnect events, every Receive Maximum): "
@@ -194,7 +197,8 @@ prop("C19",
      shrink_fields=[],
      rule="real-time runs, 24 in parallel: 5/6 'keep' cases with client keep-alive K in {1,2,2,3,0}, 25% with a forced server keep-alive of 1-2 s, and 0-4 packets (PINGREQ / PUBLISH qos0 / SUBSCRIBE) "
           "sent at gaps either clearly inside the deadline or at most K seconds, then silence; 1/6 'conn' cases: a socket that never sends CONNECT with connect timeout 1-2 s. "
-          "Observables: whether and when (ms since CONNACK / socket open) the broker closed, and whether a watcher saw the Will. Coq computes the expected closure time from the extracted "
+          "Observables: whether and when the broker closed (ms since a time stamp taken BEFORE the CONNECT was written / the socket was opened; every send time is taken before its write, so a measured silence never under-estimates the one the broker saw), "
+          "and whether a watcher saw the Will. Coq computes the expected closure time from the extracted "
           "formula and the ACTUAL send times; lower bounds are exact (never before the deadline, never before K s of silence), scheduling slack of 1.5 s is allowed above only. "
           "non-trivial = every case; distinct by case JSON.",
      level_text="Theorems (coq/props/C19.v) on the deadline expression RE-EXTRACTED from connection/options.go on every run: for every K >= 0 it equals floor(1.5 K) and lies in [K, 3K/2]; K = 0 disables the timer; "
@@ -335,10 +339,13 @@ prop("C20",
      n={"quick": 300, "thorough": 5000, "search": 600},
      shrink_fields=["ops"], shrink_min=1,
      rule="a generated population as for C16 (with wills; every 4th with waits so that timers are pending, fired or about to fire), then Manager.Stop + Shutdown under an 8 s watchdog: Stop must return, every attached connection must be closed "
-          "(v5: DISCONNECT 0x8B 'server shutting down' required), wills of the closed connections are observed. non-trivial = more than one CONNECT; distinct by case JSON.",
+          "(v5: DISCONNECT 0x8B 'server shutting down' required), wills of the closed connections are observed. Every 30th case (and two corpus cases) drives the WHOLE server instead: server.NewServer with a TCP and a WebSocket listener on loopback, 2-5 connections of the kinds "
+          "TCP established / TCP connected but silent / WebSocket established / WebSocket upgraded but silent, then server.Shutdown under a 10 s watchdog: it must return, every connection must be closed, the ports must refuse, and a CONNECT sent on a handshake-stage connection after Shutdown "
+          "returned must not be answered. non-trivial = more than one CONNECT or a listener case; distinct by case JSON.",
      level_text="Theorems (coq/props/C20.v): for every population reachable by any history, after Stop no connection is attached, every attached connection has been told, returning is the last thing Stop does, CONNECTs are no longer accepted; "
                 "durable sessions keep exactly subscriptions + pending messages, detached ones are untouched (deadlines included), non-durable ones are gone; wills are conserved across the shutdown. That Stop RETURNS is not a theorem about a total function: "
-                "it is observed on every case (watchdog). Partial: 'connections mid-handshake' are covered by C10's aborted CONNECTs only; listeners are outside clients.Manager and not driven.",
+                "it is observed on every case (watchdog). Partial: the listener level (server.Shutdown, transports, accept pool, connections mid-handshake) has no machine of its own - its expected outcome is the oracle lstop in chk/C05chk.v (everything closed, nothing accepts, nothing answered afterwards) "
+                "compared with the real server on loopback sockets.",
      level_note=_SESS_NOTE, trusted_base=_SESS_TB,
      assumptions=["Stop counts as hung after 8 s"],
 )
